@@ -207,6 +207,23 @@ trait DataPointBuilder {
                 Ok(())
             }
 
+            // Integers that don't fit in an `i64` would otherwise be streamed as text
+            // and rejected; OTLP can only carry them as doubles
+
+            fn u128(&mut self, value: u128) -> sval::Result {
+                match i64::try_from(value) {
+                    Ok(value) => self.i64(value),
+                    Err(_) => self.f64(value as f64),
+                }
+            }
+
+            fn i128(&mut self, value: i128) -> sval::Result {
+                match i64::try_from(value) {
+                    Ok(value) => self.i64(value),
+                    Err(_) => self.f64(value as f64),
+                }
+            }
+
             fn seq_begin(&mut self, _: Option<usize>) -> sval::Result {
                 if self.in_seq {
                     return sval::error();
